@@ -24,7 +24,7 @@ pub const BOUND_PANIC: &str = "VERIF-BOUND-EXCEEDED";
 //   wherever several are alive on one thread; everywhere else label 0 is used and every evaluator the harness builds
 //   (`evaluator()`, or `allow()` next to a direct construction) restarts the detector of the current label.
 // * a budget as a backstop for state the hook does not show: a correct enumeration considers exactly
-//   positions-in-scope x prod(len) deals, so every evaluator built adds 1176 x prod(len) + 16 to its thread's budget
+//   positions-in-scope x prod(len) deals, so every evaluator built adds 1176 x prod(max(len,1)) + 16 to its thread's budget
 //   and every considered deal takes one away. It only over-approximates (scoped and abandoned evaluators leave their
 //   allowance behind; `reset_budget()` between cases keeps it tight), so it cannot fire on a correct enumerator.
 //
@@ -49,7 +49,9 @@ struct Cycle {
 pub fn allow(ranges: &Vec<HandRange>) {
     let mut product: u128 = 1;
     for r in ranges {
-        product = product.saturating_mul(r.card_pairs().len() as u128);
+        // an empty range counts as one entry: a correct evaluator considers nothing then, but one that drops the empty
+        // seat and deals the others is advancing all the same, and must be judged by what it yields, not by this guard
+        product = product.saturating_mul(r.card_pairs().len().max(1) as u128);
     }
     let add = product.saturating_mul(1176).saturating_add(16);
     let add = if add > u64::MAX as u128 { u64::MAX } else { add as u64 };
